@@ -13,7 +13,16 @@ def pad_head(first, fixed, where, target, marker):
     fields = list(fixed)
     base = size(first, fields)
     need = target - base
-    if where == 'line' and need > 0:
+    if where == 'both' and need > 0:
+        # neither the first line nor the field block alone reaches the limit; together they do
+        parts = first.split(' ')
+        half = need // 2
+        parts[1] = parts[1] + '?' + 'q' * max(0, half - 1)
+        first = ' '.join(parts)
+        rest = target - size(first, fields)
+        over = len('X-Big') + 4
+        fields.append(('X-Big', marker + 'a' * max(0, rest - over - len(marker))))
+    elif where == 'line' and need > 0:
         parts = first.split(' ')
         parts[1] = parts[1] + '?' + 'q' * max(0, need - 1)
         first = ' '.join(parts)
@@ -128,5 +137,5 @@ def run(ctx):
     ctx.cov['by_status'] = {str(s): sum(1 for o in out if o['ev'][-1]['status'] == s) for s in sorted({o['ev'][-1]['status'] for o in out})}
     for o in out[:2]:
         ctx.sample(o)
-    ctx.cov['rule'] = ('classes = LimitsScen.tla (direction x limit 4 KiB/64 KiB x size relative to the limit x where the excess sits x arrival pattern); histories validated '
+    ctx.cov['rule'] = ('classes = LimitsScen.tla (direction x limit 4 KiB/64 KiB x size relative to the limit x where the excess sits (first line, one field, many fields, split between line and fields) x arrival pattern); histories validated '
                        'by TLC against Limits.tla. Non-trivial = distinct class.')
